@@ -13,6 +13,7 @@ def mass : P String := do
 
 inductive Op where
   | update (m g : FVec) | accept | reject
+  | queued (m g : FVec)       -- `update(m, g)`: queued until the next accept
   | refused (m g : FVec)      -- an update whose factorisation the library refused (LinAlgError): the verdict of the library call is an input
   | observe (z p : FVec)      -- generate_momentum(z), kinetic_energy(p), kinetic_energy_gradient(p)
 
@@ -21,6 +22,7 @@ def pOp : P Op := do
   match k with
   | "U" => do let m ← pVec; let g ← pVec; pure (.update m g)
   | "X" => do let m ← pVec; let g ← pVec; pure (.refused m g)
+  | "Q" => do let m ← pVec; let g ← pVec; pure (.queued m g)
   | "A" => pure .accept
   | "R" => pure .reject
   | "O" => do let z ← pVec; let p ← pVec; pure (.observe z p)
@@ -36,15 +38,17 @@ def bfgs : P String := do
   match floatFactor minv with
   | none => failure
   | some f0 =>
-    let st0 : BFGS FVec FMat := bfgsInit minv f0 m0 g0
-    let (_, outs) := ops.foldl (fun (acc : BFGS FVec FMat × List String) op =>
-      let (st, outs) := acc
+    let st0 : BFGS FVec FMat × List (FVec × FVec) := (bfgsInit minv f0 m0 g0, [])
+    let show_ := fun (st : BFGS FVec FMat) => fmtMat st.Minv ++ " " ++ fmtMat st.F
+    let (_, outs) := ops.foldl (fun (acc : (BFGS FVec FMat × List (FVec × FVec)) × List String) op =>
+      let (s, outs) := acc
       match op with
-      | .update m g => let st' := bfgsStep la floatFactor st (.update m g); (st', outs ++ [fmtMat st'.Minv ++ " " ++ fmtMat st'.F])
-      | .refused m g => let st' := bfgsStep la (fun _ => none) st (.update m g); (st', outs ++ [fmtMat st'.Minv ++ " " ++ fmtMat st'.F])
-      | .accept => let st' := bfgsStep la floatFactor st .accept; (st', outs ++ [fmtMat st'.Minv ++ " " ++ fmtMat st'.F])
-      | .reject => let st' := bfgsStep la floatFactor st .reject; (st', outs ++ [fmtMat st'.Minv ++ " " ++ fmtMat st'.F])
-      | .observe z p => (st, outs ++ [fmtVec (bfgsMomentum la st z) ++ " " ++ fmtHexFloat (bfgsKinetic la st p) ++ " " ++ fmtVec (bfgsVelocity la st p)]))
+      | .update m g => let s' := bfgsQStep la floatFactor s (.direct m g); (s', outs ++ [show_ s'.1])
+      | .queued m g => let s' := bfgsQStep la floatFactor s (.queued m g); (s', outs ++ [show_ s'.1])
+      | .refused m g => let s' := bfgsQStep la (fun _ => none) s (.direct m g); (s', outs ++ [show_ s'.1])
+      | .accept => let s' := bfgsQStep la floatFactor s .accept; (s', outs ++ [show_ s'.1])
+      | .reject => let s' := bfgsQStep la floatFactor s .reject; (s', outs ++ [show_ s'.1])
+      | .observe z p => (s, outs ++ [fmtVec (bfgsMomentum la s.1 z) ++ " " ++ fmtHexFloat (bfgsKinetic la s.1 p) ++ " " ++ fmtVec (bfgsVelocity la s.1 p)]))
       (st0, [])
     pure (String.intercalate " | " outs)
 
